@@ -990,6 +990,8 @@ def run(prog: Program) -> Results:
                             f"{'as they are' if elt is None else 'as `' + norm(elt)[:40] + '`'}: these names did not pass _parse_npath and "
                             f"_format_attr_name, so a keyword (`if`, `with`, `let`…) or a name that needs quotes is looked up and written bare — "
                             f"`set if 1` emits `{{ if = 1; }}`, which no longer parses, and `rm let` cannot find `\"let\"`")
+    from sa.rules import merge as _merge12
+    _merge12.check(prog, res, "R-C12-12", "R-C12-13")  # a second set/rm finds the same binding: one tree per attrpath family (shared with R-C04-5/6)
     # ------------------------------------------------------------ R-C12-9 every name read from a file passes the splitter
     r9 = res.rule("R-C12-9", "every binding name read from a file is split by _split_attrpath (the one scanner that knows quotes and "
                   "interpolations); a bypass is taken only under `\".\" not in name`, not under a guess about the quotes", floor=1)
